@@ -356,6 +356,9 @@ def check(ctx):
     _ps.check_decode_memos(ctx)
     from ..rules import shared as _shm
     _shm.check_class_level_containers(ctx)
+    # the record of automatically taken choices is class-level state: it is read only right after the apply that wrote it
+    from . import c07 as _c07
+    _c07.fast_records_auto_taken(ctx)
     ctx.floor('A11m', 3, 'mutable containers created in class bodies')
     from ..rules import shapes as _shr
     _shr.check_sibling_reductions(ctx)
